@@ -183,7 +183,7 @@ claim('C04', 'Lean 4 theorems on calendar arithmetic, the capture-normalisation 
       "consecutive digits, so the EZCHECK pre-checks never skip a matching line and find_datetime_in_line with its persisting cursors equals the loop without them (C04_ezcheck_sound, C04_ezcheck_transparent); "
       "for the RFC 3339 row capture is proved end to end for every field value (C04_rfc3339_search, C04_rfc3339_end_to_end). For 168 of the 173 rows the capture half is proved over catalogues derived AUTOMATICALLY from the regenerated AST (RegexAuto: per item every symbolic word, a greedy-first policy, right-to-left pruning to determinate entries; soundness by construction, no per-row input): for every valid selection of words and admissible tail the leftmost-first matcher matches at 0, stops after the words, and every named group spans the word of its item (C04_rowN_search, N in 0..64, 70..172; one decide +kernel per row pins the catalogue digest, so a changed pattern breaks it); rows 65-69 (a greedy [^\n]+ before the stamp) are not covered; three padded-day / zone-prefix statements are proved false with witnesses replayed on the regex crate. The normalisation itself is REGENERATED (CapturesSpec): all of captures_to_buffer_bytes is translated into a statement list on every run and its interpreter is proved equal to the hand model (captures_skeleton_is_model), so the normalisation theorems hold of the source's program; nine mutants regenerated from edited source text (incl. both seeded fraction-padding changes) each falsify a named statement. Pattern selection is modelled (PatSelSpec): try order, first-match, the one row kept "
       "after analysis, stability for one-notation files, parse-cache transparency and clearing at year changes. Ties: rgx (every row: match, span, every group span vs the regex crate), time (regex+normalise+chrono "
-      "pipeline at boundary instants), patsel (real SyslineReader/SyslogProcessor). Known findings F26-F28.",
+      "pipeline at boundary instants), patsel (real SyslineReader/SyslogProcessor). The join of the two halves is proved per row (RegexE2E*): for 163 rows, for every valid selection of the row's catalogue, admissible tail, fallback zone and fill year, the pipeline (regex search on the slice up to range_regex.end, capture, normalise, parse) yields the instant the captured words spell (C04_rowN_end_to_end; word shapes and calendar ranges are hypotheses on the selection), and for the rows whose longest rendering fits range_regex.end the length hypothesis is discharged by a kernel computation (C04_rowN_end_to_end_all); the rows that did NOT fit exposed three defects repaired in /repo (17a2b6aa, 992694e1: long month / weekday names cut the zone or the seconds; counter-models kept). Known findings F26, F27 (epoch rows; proved false).",
       TB + "completeness/priority of the model matcher w.r.t. the regex crate (rows other than the RFC 3339 one) and chrono parse are validated differentially only; numeric-offset scanning is proved at instances.",
       "DESIGN.md §6 C04")
 
